@@ -71,6 +71,25 @@ def handcrafted():
         ("lastrect-only", hs38 + init0 + b"\0\0\xff\xff" + struct.pack("!HHHHi", 0, 0, 0, 0, -224)),
         ("unknown-messages", hs38 + init0 + bytes(range(4, 60))),
     ]
+    # zero-length fields after the decoder state has changed: the connection-wide zlib stream of ZRLE
+    import zlib
+
+    def zrle_rect(payload):
+        return b"\0\0\0\x01" + struct.pack("!HHHHi", 0, 0, 2, 2, 16) + struct.pack("!I", len(payload)) + payload
+    tile = b"\x01\x10\x20\x30"                      # one solid 2x2 tile
+    co = zlib.compressobj()
+    synced = co.compress(tile) + co.flush(zlib.Z_SYNC_FLUSH)
+    synced2 = co.compress(tile) + co.flush(zlib.Z_SYNC_FLUSH)
+    finished = zlib.compress(tile)                  # Z_FINISH: the stream ends here (no real server does that)
+    out += [
+        ("zrle-synced-then-empty", hs38 + init0 + zrle_rect(synced) + zrle_rect(b"") + b"\x02"),
+        ("zrle-empty-then-synced", hs38 + init0 + zrle_rect(b"") + zrle_rect(synced) + b"\x02"),
+        ("zrle-finished-then-empty", hs38 + init0 + zrle_rect(finished) + zrle_rect(b"") + b"\x02"),
+        ("zrle-finished-then-empty-twice", hs38 + init0 + zrle_rect(finished) + zrle_rect(b"") + zrle_rect(b"") + b"\x02"),
+        ("zrle-finished-then-more", hs38 + init0 + zrle_rect(finished) + zrle_rect(synced) + b"\x02"),
+        ("zrle-two-synced-then-empty", hs38 + init0 + zrle_rect(synced) + zrle_rect(synced2) + zrle_rect(b"") + b"\x02"),
+        ("zrle-garbage-then-empty", hs38 + init0 + zrle_rect(b"\xff\xfe\xfd") + zrle_rect(b"") + b"\x02"),
+    ]
     return out
 
 
